@@ -262,6 +262,63 @@ def construct_of(line):
     return m3.group(1) if m3 else "other"
 
 
+def prove_many(ctx, modules, required, allow_extra_axioms):
+    """ctx.prove for several modules with ONE lake build (the parts compile in parallel) and ONE audit run.
+    Same rules as vlib.Ctx.prove: forbidden-construct scan over the import closure, every theorem of every module is an
+    obligation, discharged iff its module compiles and its axioms are inside the allow-list; `required` names must exist."""
+    for m in modules:
+        bad = vlib.scan_forbidden(vlib.LEAN, m)
+        if bad:
+            ctx.proof["broken"].append({"theorem": "*", "why": "forbidden construct: %s" % bad[:3]})
+    ok, log = ctx.lake_build(modules, timeout=3400)
+    src_names = []
+    for m in modules:
+        src_names += re.findall(r"^\s*theorem\s+([^\s:({\[]+)", open(os.path.join(vlib.LEAN, m.replace(".", "/") + ".lean")).read(), re.M)
+    if not ok:
+        failing = sorted(set(re.findall(r"error: .*?([\w/]+\.lean):(\d+)", log)))
+        ctx.proof["obligations"] += max(len(src_names), 1)
+        ctx.proof["broken"].append({"theorem": ",".join(modules), "why": "lake build failed", "where": ["%s:%s" % f for f in failing][:10], "log": log[-3000:]})
+        return False
+    audit_dir = os.path.join(vlib.LEAN, ".audit")
+    os.makedirs(audit_dir, exist_ok=True)
+    af = os.path.join(audit_dir, "WaVerif_Props_C02_all.lean")
+    with open(af, "w") as f:
+        f.write("import WaVerif.Base.AuditCmd\n" + "".join("import %s\n" % m for m in modules) + "".join("#audit_module %s\n" % m for m in modules))
+    with vlib.Lock("lake"):
+        rc, o = vlib.sh(["lake", "env", "lean", af], cwd=vlib.LEAN, timeout=1800)
+    found = {}
+    for mm in re.finditer(r"AUDIT (\S+) axioms=\[(.*?)\]", o):
+        found[mm.group(1)] = [a.strip() for a in mm.group(2).split(",") if a.strip()]
+    if rc != 0 or not found:
+        ctx.proof["obligations"] += 1
+        ctx.proof["broken"].append({"theorem": ",".join(modules), "why": "audit failed", "log": o[-2000:]})
+        return False
+    allgood = True
+    for req in required:
+        if not any(n == req or n.endswith("." + req) for n in found):
+            ctx.proof["obligations"] += 1
+            ctx.proof["broken"].append({"theorem": req, "why": "required theorem missing"})
+            allgood = False
+    for n, axs in sorted(found.items()):
+        ctx.proof["obligations"] += 1
+        extra = [a for a in axs if a not in vlib.STD_AXIOMS and not any(re.fullmatch(pat, a) for pat in allow_extra_axioms)]
+        if extra:
+            ctx.proof["broken"].append({"theorem": n, "why": "axioms outside allow-list: %s" % extra})
+            allgood = False
+        else:
+            ctx.proof["discharged"] += 1
+        ctx.proof["theorems"][n] = axs
+    if ctx.tier == "thorough":
+        for m in modules:
+            with vlib.Lock("lake"):
+                rc, o = vlib.sh(["lake", "env", "leanchecker", m], cwd=vlib.LEAN, timeout=3000)
+            ctx.notes.append("leanchecker %s rc=%d" % (m, rc))
+            if rc != 0:
+                ctx.proof["broken"].append({"theorem": m, "why": "leanchecker rejected", "log": o[-2000:]})
+                allgood = False
+    return allgood
+
+
 # ------------------------------------------------------------------------------------------------ main
 def run(ctx):
     t0 = time.time()
@@ -277,7 +334,11 @@ def run(ctx):
     tinfo = T.regenerate(ctx, h)
     for b in tinfo["broken"]:
         ctx.proof["broken"].append(b)
-    ctx.prove("WaVerif.Props.C02", required=T.REQUIRED, allow_extra_axioms=BV_AX)
+    parts = json.load(open(os.path.join(vlib.VERIF, "extract", "c02_required.json")))
+    missing = [t for t in T.REQUIRED if not any(t in v for v in parts.values())]
+    if missing:
+        ctx.proof["broken"].append({"theorem": "row set", "why": "Props/C02R*.lean do not cover the rows %s: run tools/gen_c02_props.py" % missing[:6]})
+    prove_many(ctx, sorted(parts) + ["WaVerif.Props.C02"], T.REQUIRED + ["div_rows_trap_iff_fault"], BV_AX)
     dist["templates"] = tinfo["count"]
     dist["t_templates_s"] = round(time.time() - t0, 1)
 
@@ -386,9 +447,11 @@ def run(ctx):
             ctx.violation(key, what, replay)
 
     # ---- 4. correspondence: Lean x86 model + regenerated templates vs the real CPU (outputs of the inline grid)
-    model = None
+    model = ctx.build_model("c02")
     if model:
         T.model_correspondence(ctx, B, model, tinfo, dist, quick)
+    # ---- 4b. the template text vs the machine code in the linked ELF (objdump)
+    T.objdump_crosscheck(ctx, B, tinfo, dist)
 
     # ---- 5. the self-developed assembler + ELF linker on the same assembly text (used instead of gcc on other hosts)
     selfasm(ctx, B, h, dist)
